@@ -699,6 +699,7 @@ pub fn units() -> Vec<Unit> {
             ExternFn("EncryptedDataPayload::parse", "RxBytes.parse", &[("bytes", "RxBytes")], "Result<EncryptedDataPayload, Error>"),
             ExternFn("EncryptedDataPayload::as_bytes", "EncryptedDataPayload.as_bytes", &[("self", "EncryptedDataPayload")], "[u8]"),
             ExternFn("EncryptedDataPayload::is_confirmed", "EncryptedDataPayload.is_confirmed", &[("self", "EncryptedDataPayload")], "bool"),
+            ExternFn("EncryptedDataPayload::is_uplink", "EncryptedDataPayload.is_uplink", &[("self", "EncryptedDataPayload")], "bool"),
             ExternFn("EncryptedDataPayload::fhdr", "EncryptedDataPayload.fhdr", &[("self", "EncryptedDataPayload")], "Fhdr"),
             ExternFn("EncryptedDataPayload::validate_mic", "EncryptedDataPayload.validate_mic", &[("self", "EncryptedDataPayload"), ("crypto", "DefaultCrypto"), ("fcnt", "u32")], "bool"),
             ExternFn("Fhdr::fcnt", "Fhdr.fcnt", &[("self", "Fhdr")], "u16"),
@@ -1365,6 +1366,8 @@ structure EncryptedDataPayload where
   is_confirmed : Bool
   fhdr : Fhdr
   validate_mic : DefaultCrypto → Int → Bool
+  /-- `is_uplink()`: the MType of the MHDR is an uplink type (Unconfirmed/ConfirmedDataUp) -/
+  is_uplink : Bool
 /-- the decrypted frame -/
 structure DecryptedDataPayload where
   fhdr : Fhdr
